@@ -643,6 +643,11 @@ class Executor:
             return Struct(ty, [n for n, _ in rv[2]], [self.operand(st, fid, o, subst) for _, o in rv[2]])
         if k == "closure":
             return Closure(rv[1], [n for n, _ in rv[2]], [self.operand(st, fid, o, subst) for _, o in rv[2]], subst)
+        if k == "variant" and rv[1] == "":
+            owners = [e for e, vs in self.enums.items() if any(v == rv[2] for v, _ in vs)]
+            if len(owners) != 1:
+                raise Unsupported("bare variant %s is ambiguous (%s)" % (rv[2], owners))
+            return Enum(owners[0], rv[2])
         if k == "variant":
             ty = self.resolve_ty(rv[1], subst)
             return Enum(ty, rv[2], [self.operand(st, fid, o, subst) for o in rv[3]])
@@ -862,6 +867,9 @@ class Executor:
                 return self.exec_body(st, b, args, binds)
             d = self.P.fns.get("%s::%s" % (trait_last, meth))
             if d:
+                ov = self.find_override(d[-1], meth, ty, caller)
+                if ov is not None:
+                    return self.exec_body(st, ov, args, {})
                 return self.exec_body(st, d[-1], args, {"Self": ty})
             return self.summary(st, ty, trait_last, meth, args, subst, callee)
         # inherent / free function:  path::<G>::name::<G>
@@ -916,6 +924,31 @@ class Executor:
             break
         self._impl_cache[key] = best
         return best
+
+    def find_override(self, default, meth, ty, caller):
+        """an impl method overriding a trait default method: same name, and exactly the default's
+        signature with Self := ty (associated types resolved)"""
+        key = ("ov", default.index, ty, caller.index if caller is not None else None)
+        if key in self._impl_cache:
+            return self._impl_cache[key]
+        sub = {"Self": ty}
+        want_p = [self.resolve_ty(t, sub) for _, t in default.params]
+        want_r = self.resolve_ty(default.ret, sub)
+        found = None
+        for b in reversed(self.P.by_method.get(meth, [])):
+            if "<impl at" not in b.name or "{closure" in b.name:
+                continue
+            if caller is not None and (b is caller or (b.name == caller.name and b.nparams == caller.nparams)):
+                continue
+            if b.nparams == want_p and b.nret == want_r:
+                # a wrapper of a std trait with the same signature (PartialEq::eq vs HasRefUnit::eq) is not an override
+                # of the crate trait unless it does not delegate to it; such wrappers are only ever *callers* here
+                if any(("as %s>::%s" % (default.name.split("::")[0], meth)) in l for ls in b.blocks.values() for l in ls):
+                    continue
+                found = b
+                break
+        self._impl_cache[key] = found
+        return found
 
     def find_closure(self, cid):
         for name, bs in self.P.fns.items():
